@@ -24,7 +24,7 @@ IMG_ONLY = {"GradCAM", "GradCAMPP", "Sobol", "Hsic"}
 _KEEP = []       # models kept alive on purpose
 
 
-def make_model(tf, kind, shape, seed, linear=False):
+def make_model(tf, kind, shape, seed, linear=False, name=None):
     rng = np.random.default_rng(seed)
     inp = tf.keras.Input(tuple(shape))
     if kind == "img" and not linear:
@@ -39,7 +39,7 @@ def make_model(tf, kind, shape, seed, linear=False):
     else:
         h = tf.keras.layers.Dense(4, activation="tanh")(f)
         out = tf.keras.layers.Dense(2)(h)
-    m = tf.keras.Model(inp, out)
+    m = tf.keras.Model(inp, out, name=name) if name else tf.keras.Model(inp, out)
     for v in m.trainable_variables:
         v.assign((rng.integers(-4, 5, size=v.shape) / 4.0).astype(np.float32))
     return m
@@ -275,7 +275,8 @@ def run_cache_case(ctx, d):
     live = []
     for step in d["steps"]:
         if step == "new":
-            m = make_model(tf, "tab", (4,), int(rng.integers(1 << 20)))
+            # distinct models may carry the same user-given name (e.g. "classifier")
+            m = make_model(tf, "tab", (4,), int(rng.integers(1 << 20)), name="net")
             models.append(m)
             live.append(m)
         elif step == "view" and models:
@@ -300,6 +301,7 @@ def run_cache_case(ctx, d):
         else:
             continue
     order = [int(i) for i in rng.integers(len(models), size=d["n_constructions"])] if models else []
+    order += [i for i in range(len(models)) if i not in order]          # every model gets at least one explainer
     expl = []
     for i in order:
         cls = Saliency if rng.random() < 0.5 else Occlusion
@@ -370,6 +372,7 @@ def gen_cases(ctx):
     for _ in range(reps * 3):
         steps = [str(rng.choice(["new", "view", "sibling", "sibling", "drop"])) for _ in range(int(rng.integers(3, 8)))]
         steps[0] = "new"
+        steps[1] = "new"
         cases.append({"type": "cache", "steps": steps, "n_constructions": int(rng.integers(3, 9)),
                       "case_seed": int(rng.integers(1 << 31))})
     return cases
